@@ -2,7 +2,7 @@
 rng handed in (one PRNG per check, seeded by VERIF_SEED)."""
 import itertools
 
-FORMATS = ["list", "array", "tuple", "dict_str", "dict_int", "names_valueof", "dict_exotic"]
+FORMATS = ["list", "array", "tuple", "dict_str", "dict_int", "names_valueof", "dict_exotic", "dict_valueof"]
 
 
 def ids_for(rng, n):
